@@ -55,8 +55,19 @@ def breaks_of(desc):
     return desc['offset'] + desc['scale'] * np.concatenate([[0.0], np.cumsum(w)])
 
 
-def make_space(desc):
+def make_space(desc, siblings=True):
+    """The space of the description.  Before it, other spaces of the same size class are built in the same process (same degree,
+    boundary type, cell count and flag; the same pattern on a domain twice and half as large, and the mirrored pattern): a space is
+    never the first of its kind, so nothing the library remembers per process may be keyed by size class alone."""
     from pygyro.splines.splines import make_knots, BSplines
+    if siblings:
+        for sc, rev in ((2.0, False), (0.5, False), (1.0, True)):
+            w = list(desc['widths'])[::-1] if rev else list(desc['widths'])
+            if rev and w == list(desc['widths']):
+                continue
+            d2 = dict(desc, scale=desc['scale'] * sc, widths=w)
+            b2 = BSplines(make_knots(breaks_of(d2), int(desc['degree']), bool(desc['periodic'])), int(desc['degree']), bool(desc['periodic']), bool(desc['flag']))
+            getattr(b2, 'integrals', None)
     br = breaks_of(desc)
     kn = make_knots(br, int(desc['degree']), bool(desc['periodic']))
     return BSplines(kn, int(desc['degree']), bool(desc['periodic']), bool(desc['flag']))
